@@ -17,7 +17,8 @@ def run(tier, seed, replay=None):
     for name, minimum in {'quiescent_points_judged': 80, 'quiescent_queries_compared': 3000, 'history_cache_hits': 200,
                           'tx_hashes_cache_hits': 30, 'step:reorg': 20, 'step:reorg_same_height': 10, 'step:forced_reorg': 15,
                           'session_reorg_signals': 30, 'query:get_history': 50, 'query:id_from_pos': 30,
-                          'step:same_height_switch_with_new_branch_spends': 5}.items():
+                          'step:same_height_switch_with_new_branch_spends': 5, 'step:all_clients_disconnected': 6,
+                          'reorgs_with_requests_sent_at_their_first_backup': 3}.items():
         rep.floor(name, c[name], minimum)
     return rep.finish(
         rule='the C07 scenarios with a querying session that issues cache-populating requests (get_history, get_balance, listunspent, '
